@@ -1,5 +1,6 @@
 import Anysystem.Props.C08
 import Anysystem.Proofs.SimRunThms
+import Anysystem.Proofs.SimWholeRun
 #print axioms Anysystem.Sim.crashNode_cancels
 #print axioms Anysystem.Sim.crashNode_frame
 #print axioms Anysystem.Sim.cancelled_never_returned
@@ -11,3 +12,11 @@ import Anysystem.Proofs.SimRunThms
 #print axioms Anysystem.Sim.step_crashed_silent
 #print axioms Anysystem.Sim.steps_crashed_silent
 #print axioms Anysystem.Sim.sendLocal_crashed_refused
+#print axioms Anysystem.Sim.crashNode_dead
+#print axioms Anysystem.Sim.DeadIds.never_popped
+#print axioms Anysystem.Sim.DeadIds.step
+#print axioms Anysystem.Sim.DeadIds.steps
+#print axioms Anysystem.Sim.DeadIds.sendLocal
+#print axioms Anysystem.Sim.DeadIds.recoverNode
+#print axioms Anysystem.Sim.DeadIds.addProcess
+#print axioms Anysystem.Sim.DeadIds.crashNode
